@@ -102,6 +102,8 @@ def load_known() -> dict:
 def run_shard(prop: str, tier: str, seed: int, shard: int, nshards: int, out: str, only_case=None) -> None:
     import faulthandler
     faulthandler.enable()
+    from . import reach
+    reach_on = reach.start(prop)
     mod = load_check(prop)
     col = Collector(prop, seed, tier)
     t0 = time.time()
@@ -128,6 +130,7 @@ def run_shard(prop: str, tier: str, seed: int, shard: int, nshards: int, out: st
     except BaseException:  # harness failure: inconclusive, never a verdict
         crashed = traceback.format_exc()
     d = col.dump()
+    d['reach'] = reach.stop() if reach_on else {}
     d['crashed'] = crashed
     d['wall_s'] = time.time() - t0
     with open(out, 'w') as f:
@@ -249,6 +252,21 @@ def drive(prop: str, tier: str, seed: int, replay: str | None = None) -> int:
     return 0
 
 
+def _reach_summary(reach_sets) -> dict:
+    """Per anchor file: executable lines inside functions that the workload ran / that exist, and the ones never reached."""
+    from . import reach
+    out = {}
+    for fn, lines in sorted(reach_sets.items()):
+        try:
+            total = reach.executable_lines(os.path.join(os.path.abspath(common.REPO_ROOT), fn))
+        except Exception:
+            continue
+        hit = set(lines) & total
+        missed = sorted(total - hit)
+        out[fn] = {'executed': len(hit), 'executable': len(total), 'not_reached': missed[:60]}
+    return out
+
+
 def merge(parts: list[dict]) -> dict:
     m = {'evaluations': 0, 'distinct': set(), 'counters': collections.Counter(), 'skips': collections.Counter(),
          'viol_counts': collections.Counter(), 'violations': [], 'samples': [], 'shard_wall': []}
@@ -262,6 +280,8 @@ def merge(parts: list[dict]) -> dict:
         if len(m['samples']) < 5:
             m['samples'].extend(d['samples'][:2])
         m['shard_wall'].append(round(d['wall_s'], 1))
+        for fn, lines in d.get('reach', {}).items():
+            m.setdefault('reach', {}).setdefault(fn, set()).update(lines)
     m['samples'] = m['samples'][:5]
     return m
 
@@ -280,6 +300,7 @@ def write_evidence(mod, prop, tier, seed, merged, n_new, known_hit, problems, ga
             'gates_failed': gates_failed, 'harness_problems': problems,
             'shards': len(merged['shard_wall']), 'shard_wall_s': merged['shard_wall'],
             'repo_root': common.REPO_ROOT,
+            'anchor_lines_executed': _reach_summary(merged.get('reach', {})),
         },
         'assumptions': getattr(mod, 'ASSUMPTIONS', []),
         'wall_s': round(wall, 2),
